@@ -134,8 +134,28 @@ def r1(db, rep, proc):
     ap0 = fn1(db, STREAM + "::allocate_pdu")
     ap, gap_rets = contiguity_site(db, ap0)
     ok = bool(gap_rets)
-    upd = [n for n in facts.fn_nodes(ap) if n["k"] == "BinaryOperator" and n["op"] == "=" and facts.expr_str(n["c"][0]) == "expected"
+    upd = [n for n in facts.fn_nodes(ap) if n["k"] == "BinaryOperator" and n["op"] == "=" and facts.strip_all(n["c"][0])["k"] == "DeclRefExpr"
            and "offset()" in facts.expr_str(facts.inline_locals(ap, n["c"][1])) and "size()" in facts.expr_str(facts.inline_locals(ap, n["c"][1]))]
+    if ok and not upd:
+        # the running end may be the size of the buffer the payloads are appended to: `buffer.size() != it->offset()` with
+        # `buffer.insert(buffer.end(), payload.begin(), payload.end())` after the test in the same loop
+        for l_ in [n for n in facts.fn_nodes(ap) if n["k"] in ("ForStmt", "WhileStmt", "CXXForRangeStmt")]:
+            body_ = [x for x in l_["c"] if x is not None][-1]
+            for c_ in facts.walk(body_):
+                if c_["k"] == "BinaryOperator" and c_.get("op") in ("!=", "==") and "offset()" in facts.expr_str(c_):
+                    for side in c_["c"]:
+                        s0 = facts.strip_all(side)
+                        if s0["k"] == "CXXMemberCallExpr" and s0.get("cname") == "size" and s0["c"][0].get("c"):
+                            cont = facts.strip_all(s0["c"][0]["c"][0])
+                            if cont["k"] == "DeclRefExpr" and cont.get("var"):
+                                app = [x for x in facts.walk(body_) if x["k"] == "CXXMemberCallExpr" and x.get("cname") in ("insert", "append") and
+                                       x["c"][0].get("c") and facts.strip_all(x["c"][0]["c"][0]).get("var") == cont["var"] and
+                                       "payload()" in facts.expr_str(x) and "end()" in facts.expr_str(x["c"][1])]
+                                others = [x for x in facts.fn_nodes(ap) if x["k"] == "CXXMemberCallExpr" and
+                                          x.get("cname") in ("insert", "append", "push_back", "resize", "clear", "erase", "assign") and
+                                          x["c"][0].get("c") and facts.strip_all(x["c"][0]["c"][0]).get("var") == cont["var"] and x not in app]
+                                if app and not others:
+                                    upd = app
     if ok and upd:
         rep.ok("R1-complete", "allocate_pdu:contiguity", facts.loc(ap), "returns null at the first fragment whose offset differs from the running end; running end = offset + size")
     else:
@@ -150,9 +170,20 @@ def gap_returns(f, null_value):
     out = []
     for n in facts.fn_nodes(f):
         if n["k"] == "ReturnStmt" and n.get("c") and facts.cval(n["c"][0]) == null_value:
-            gf = [(op, facts.inline_locals(f, l), facts.inline_locals(f, rr) if rr is not None else None)
-                  for op, l, rr in cond.guards_facts(g2, g2.pos(n))]
-            if any(op == "!=" and "offset()" in (facts.expr_str(l) + facts.expr_str(rr)) and "expected" in (facts.expr_str(l) + facts.expr_str(rr))
+            gf = [(op, l, rr) for op, l, rr in cond.guards_facts(g2, g2.pos(n))]
+
+            def running_end(e):
+                """a local that is not the fragment (a counter of its own, whatever its name) or the size of a local buffer"""
+                e0 = facts.strip_all(e)
+                if e0["k"] == "DeclRefExpr" and e0.get("var") and not e0.get("parm") and "offset()" not in facts.expr_str(facts.inline_locals(f, e0)):
+                    return True
+                if e0["k"] == "CXXMemberCallExpr" and e0.get("cname") == "size" and e0["c"][0].get("c"):
+                    c0 = facts.strip_all(e0["c"][0]["c"][0])
+                    return c0["k"] == "DeclRefExpr" and not c0.get("parm")
+                return False
+            def is_off(e):
+                return "offset()" in facts.expr_str(facts.inline_locals(f, e))
+            if any(op == "!=" and ((is_off(l) and running_end(rr)) or (is_off(rr) and running_end(l)))
                    for op, l, rr in gf if rr is not None):
                 if any(l["k"] in ("ForStmt", "WhileStmt") and any(x is n for x in facts.walk(l)) for l in facts.fn_nodes(f)):
                     out.append(n)
@@ -366,7 +397,21 @@ def r4(db, rep):
             if any(op == "==" and "offset" in facts.expr_str(l) and "offset" in facts.expr_str(rr) for op, l, rr in at if rr is not None) and \
                     any(x["k"] == "ReturnStmt" for x in facts.walk(n)):
                 dup = c0
-    if dup is not None and g.before_on_all_paths(g.pos(dup), pi) and g.before_on_all_paths(g.pos(dup), pa):
+    # the test may be fused into the search loop (`for (; it != end; ++it) { if (it->offset() == offset) return; if (it->offset()
+    # > offset) break; }`): then it runs for every stored fragment the walk visits - what dominates insertion and accounting
+    # is the loop, and inside its body the test comes first
+    fused = None
+    if dup is not None:
+        for l_ in [n for n in facts.fn_nodes(af) if n["k"] in ("WhileStmt", "ForStmt")]:
+            real_ = [x for x in l_["c"] if x is not None]
+            if any(y is dup for y in facts.walk(real_[-1])):
+                conds_ = [x for x in real_[:-1] if x["k"] != "DeclStmt" and g.pos(x)]
+                ok_first = all(g.before_on_all_paths(g.pos(dup), g.pos(y)) or any(z is y for z in facts.walk(dup))
+                               for y in facts.walk(real_[-1]) if y["k"] == "BinaryOperator" and y.get("op") in ("<", ">", "<=", ">=") and g.pos(y)
+                               and "offset" in facts.expr_str(y))
+                if conds_ and ok_first and all(g.before_on_all_paths(g.pos(conds_[0]), p_) for p_ in (pi, pa)):
+                    fused = l_
+    if dup is not None and (fused is not None or (g.before_on_all_paths(g.pos(dup), pi) and g.before_on_all_paths(g.pos(dup), pa))):
         rep.ok("R4-accounting", "add_fragment:duplicate-test", facts.loc(af, dup), "duplicate-offset test precedes insertion and accounting on every path")
     else:
         rep.violation("R4-accounting", "add_fragment:duplicate-test", facts.loc(af), "insertion/accounting reachable without the duplicate-offset test")
@@ -393,7 +438,12 @@ def r4(db, rep):
                         if any(y["k"] == "BinaryOperator" and y.get("op") in ("<", ">", "<=", ">=") and "offset" in facts.expr_str(y)
                                for y in facts.fn_nodes(pf)):
                             search = x
-    if okb and search is not None and dup is not None and g.before_on_all_paths(g.pos(search), g.pos(dup)):
+    if search is None and fused is not None:
+        # fused form: the ordering test is the `break` condition inside the loop body
+        for y in facts.walk([x for x in fused["c"] if x is not None][-1]):
+            if y["k"] == "BinaryOperator" and y.get("op") in ("<", ">", "<=", ">=") and "offset" in facts.expr_str(y):
+                search = y
+    if okb and search is not None and dup is not None and (fused is not None or g.before_on_all_paths(g.pos(search), g.pos(dup))):
         rep.ok("R4-accounting", "add_fragment:ordered-search", facts.loc(af, search),
                "position found by a search from begin() that runs on every path before the duplicate test")
     else:
